@@ -11,15 +11,16 @@ Proved here
 * `closed_at_most_once`     — along **every** trace (any interleaving of the split steps of any number of requests,
                               any clock advances, any knobs, either shape of `insert`/`Release`) no cursor's
                               partitions are released more often than acquired, and at most once;
-* `cex_expired_busy_then_same_id`, `cex_uncached_then_cached_same_id` (finding F28, sequential),
-  `cex_same_unknown_id_race` (finding F16): concrete traces after which a cursor is never closed and `Release` panics;
-  `repaired_*`: the same traces with the proposed repairs end with everything closed and no panic;
+* `closed_exactly_once_at_end`, `ring_inv`, `release_never_panics` — for the code as it is now (F16 and F28 repaired),
+  every well-formed trace of the split steps, no hypothesis on ids;
+* `repaired_f28`, `repaired_f16`: the former findings' witness traces end clean for the regenerated code shape;
+  `regression_shape_f28`, `regression_shape_f16`: what the old shape did (documents a revert);
 * `unknown_id_continues`    — an unknown/expired id falls through with the same id and the supplied position;
 * `release_uncached_closes`, `evict_idle_closes`, `evict_busy_keeps_open` — the single life-cycle steps;
 * `lock_discipline`, `knobs_sane` — regenerated facts.
 
-Not proved (kept as `def … : Prop`, exercised by the harness only): `C15_full` — exactly-once at end of life and
-the ring/map agreement for histories outside the findings' classes.
+Not proved (kept as `def … : Prop`, exercised by the harness only): `C15_unproved_rest` — the sweeps never reach the
+model's nil-dereference branches, `close()` is called exactly once per dead cursor.
 -/
 namespace Logrange.Props.C15
 open Logrange.Provider Logrange.Ring
@@ -75,15 +76,16 @@ def f28Trace (byId : Bool) : St × RelRes :=
   let s := (release byId s 1).1
   release byId s 2
 
-/-- After that trace: `Release(B)` panicked; A was never closed although it is neither held nor cached. -/
-theorem cex_expired_busy_then_same_id :
+/-- REGRESSION SHAPE (what a revert of the repair would do): with `Release` looking the holder up by id only,
+    `Release(B)` panics and A is never closed although it is neither held nor cached. -/
+theorem regression_shape_f28 :
     let r := f28Trace true
     r.2 = .panic ∧ r.1.panicked = true ∧
     (r.1.cursors 1).acquired = 1 ∧ (r.1.cursors 1).closed = 0 ∧ (r.1.cursors 1).held = false ∧
     r.1.ring.all (fun e => (r.1.holders e).cur != some 1) = true := by decide
 
-/-- the same defect without any expiry: an un-cached cursor A under a client-supplied id 9 is still held when a
-    caching request names id 9 and gets B; `Release(A)` marks B's holder idle, `Release(B)` panics. -/
+/-- the same witness without any expiry: an un-cached cursor A under a client-supplied id 9 is still held when a
+    caching request names id 9 and gets B. -/
 def f28bTrace (byId : Bool) : St × RelRes :=
   let s := init 100 60 300
   let s := (getOrCreate false s 9 0 0 false .ok false 1 0).1
@@ -91,15 +93,14 @@ def f28bTrace (byId : Bool) : St × RelRes :=
   let s := (release byId s 1).1
   release byId s 2
 
-theorem cex_uncached_then_cached_same_id :
-    let r := f28bTrace true
-    r.2 = .panic ∧ (r.1.cursors 1).closed = 0 ∧ (r.1.cursors 1).held = false ∧
-    r.1.ring.all (fun e => (r.1.holders e).cur != some 1) = true := by decide
-
-/-- with the proposed repair (`Release` treats a holder of another cursor as a miss) both traces end well -/
+/-- for the code as it is (`releaseLooksUpById` regenerated): both F28 witness traces end clean — no panic, A closed
+    exactly once, B idle in the cache and open -/
 theorem repaired_f28 :
-    (f28Trace false).2 = .idle ∧ (f28Trace false).1.panicked = false ∧ ((f28Trace false).1.cursors 1).closed = 1 ∧
-    (f28bTrace false).2 = .idle ∧ ((f28bTrace false).1.cursors 1).closed = 1 := by decide
+    let r := f28Trace Logrange.Generated.C15.releaseLooksUpById
+    let r' := f28bTrace Logrange.Generated.C15.releaseLooksUpById
+    r.2 = .idle ∧ r.1.panicked = false ∧ (r.1.cursors 1).closed = 1 ∧ (r.1.cursors 1).closeCalls = 1 ∧
+    (r.1.cursors 2).closed = 0 ∧
+    r'.2 = .idle ∧ r'.1.panicked = false ∧ (r'.1.cursors 1).closed = 1 ∧ (r'.1.cursors 2).closed = 0 := by decide
 
 /-! ## finding F16 — two in-flight requests with the same uncached id -/
 
@@ -117,20 +118,22 @@ def f16Trace (chk : Bool) : (LookupRes × LookupRes) × St × List RelRes :=
   let (s, r2) := if i2 = .cached then release true s 2 else (s, .closed)
   ((l1, l2), s, [r1, r2])
 
-/-- Both look-ups miss; the second insert overwrites the first one's map entry (the ring has two holders, the map
-    one); `Release` of cursor 1 marks cursor 2's holder idle, `Release` of cursor 2 panics; after `busyTo` the
-    sweeper drops cursor 1's still-busy holder unclosed: cursor 1 is never closed. -/
-theorem cex_same_unknown_id_race :
+/-- REGRESSION SHAPE (what a revert of the repair would do): with a blind second locked section the second insert
+    overwrites the first one's map entry; `Release` of cursor 2 panics; cursor 1 is never closed. -/
+theorem regression_shape_f16 :
     let r := f16Trace false
     r.1 = (.miss, .miss) ∧ r.2.2 = [.idle, .panic] ∧ r.2.1.ring.length = 2 ∧ r.2.1.curs.size = 1 ∧
     (let s := sweepByTime (age r.2.1 301)
      (s.cursors 1).closed = 0 ∧ (s.cursors 1).held = false ∧
      s.ring.all (fun e => (s.holders e).cur != some 1) = true) := by decide
 
-/-- with the proposed repair (the second locked section re-checks the map, closes the loser, refuses) -/
+/-- for the code as it is (`insertChecksExisting` regenerated): the F16 witness schedule ends clean — the loser is
+    refused late and its cursor closed exactly once, the winner is cached, nothing panics -/
 theorem repaired_f16 :
-    let r := f16Trace true
-    r.2.2 = [.idle, .closed] ∧ r.2.1.panicked = false ∧ (r.2.1.cursors 2).closed = 1 ∧ r.2.1.ring.length = 1 := by decide
+    let r := f16Trace Logrange.Generated.C15.insertChecksExisting
+    r.1 = (.miss, .miss) ∧ r.2.2 = [.idle, .closed] ∧ r.2.1.panicked = false ∧
+    (r.2.1.cursors 2).closed = 1 ∧ (r.2.1.cursors 2).closeCalls = 1 ∧ (r.2.1.cursors 1).closed = 0 ∧
+    r.2.1.ring.length = 1 ∧ r.2.1.curs.size = 1 := by decide
 
 /-! ## unknown or expired id: transparently continued -/
 
@@ -212,40 +215,86 @@ theorem knobs_sane :
     0 < Logrange.Generated.C15.idleToSec / Logrange.Generated.C15.sweeperPeriodDivisor ∧
     Logrange.Generated.C15.freePoolCap = freePoolCap := by decide
 
-/-! ## not proved: the full statement -/
+/-! ## exactly once at the end of life, ring invariant, no panic on release — the code as it is now
 
-/-- a cursor is at the end of its life: acquired, not held by a request, not reachable from the ring -/
+All three are consequences of the invariant `Logrange.Provider.J` (Proofs/Provider.lean), proved for the repaired code
+shape (`insert` re-checks the map, `Release` compares the cursor object) along **every** well-formed trace of the SPLIT
+steps (lookup / create / insert / release / age / sweepByTime / sweepBySize of any number of requests, interleaved
+arbitrarily) with **no hypothesis on ids**: ids and new ids are arbitrary, the same id may be in flight many times and
+may be re-used while a cursor built under it is still held. Well-formedness (`WF`, `wfLabel`) is only the client
+protocol: a created cursor object is fresh, `insert c` follows a `create` of a still held, not yet cached `c`,
+`release c` is called for held cursors only; the composite `.get` label is excluded (its parts are the split steps).
+The shape of the code enters through the regenerated facts, so a regression of either fact breaks these theorems. -/
+
+theorem code_shape : Logrange.Generated.C15.insertChecksExisting = true ∧
+    Logrange.Generated.C15.releaseLooksUpById = false := by decide
+
+/-- a cursor is at the end of its life: acquired, not held by a request, not cached in any ring element -/
 def Dead (s : St) (c : Nat) : Prop :=
   (s.cursors c).acquired = 1 ∧ (s.cursors c).held = false ∧ ∀ e ∈ s.ring, (s.holders e).cur ≠ some c
 
-/-- the ring and the map hold the same holders; the free ring is disjoint from the busy ring -/
-def RingInv (s : St) : Prop :=
-  s.ring.Nodup ∧ s.free.Nodup ∧ (∀ e ∈ s.ring, e ∉ s.free) ∧ s.freeSz = s.free.length ∧ s.curs.size = s.ring.length ∧
-  (∀ e ∈ s.ring, ∃ c, (s.holders e).cur = some c ∧ s.curs.get (s.cursors c).id = some e) ∧
-  (∀ id e, s.curs.get id = some e → e ∈ s.ring)
+/-- reachable states of the code as it is -/
+def Reachable (s : St) : Prop :=
+  ∃ (maxCurs : Nat) (idleTo busyTo : Int) (tr : List Label), WF (init maxCurs idleTo busyTo) tr ∧
+    s = run Logrange.Generated.C15.insertChecksExisting Logrange.Generated.C15.releaseLooksUpById
+          (init maxCurs idleTo busyTo) tr
 
-/-- a sequential, well-behaved history: requests are not interleaved (`get`, no split steps), only held cursors
-    are released, new cursor numbers/ids are fresh, and no cursor is built under an id while another cursor built
-    under that id is still held (the class of F28; F16 needs interleaving) -/
-def WellBehaved (chk byId : Bool) : St → List Label → Prop
-  | _, [] => True
-  | s, l :: tr =>
-    (match l with
-     | .get id _ _ _ _ _ c n =>
-        (s.cursors c).acquired = 0 ∧ n > 0 ∧ (∀ c', (s.cursors c').acquired = 1 → (s.cursors c').id ≠ n) ∧
-        (∀ c', (s.cursors c').held = true → (s.cursors c').id = id → s.curs.get id ≠ none)
-     | .release c _ => (s.cursors c).held = true
-     | .age d => d ≥ 0
-     | .sweepT | .sweepS => True
-     | _ => False) ∧ WellBehaved chk byId (stepL chk byId s l) tr
+theorem reachable_J {s : St} (h : Reachable s) : J s := by
+  obtain ⟨m, i, b, tr, wf, rfl⟩ := h
+  rw [code_shape.1, code_shape.2]
+  exact J_run tr (J_init m i b) wf
 
-/-- FULL statement (NOT proved; the harness's `provider` section evaluates it on the implementation after every
-    step): on well-behaved histories nothing panics, the ring invariant holds, and every dead cursor was closed
-    exactly once by exactly one call of `close()`. -/
-def C15_full : Prop :=
-  ∀ (maxCurs : Nat) (idleTo busyTo : Int) (tr : List Label),
-    WellBehaved false true (init maxCurs idleTo busyTo) tr →
-    let s := run false true (init maxCurs idleTo busyTo) tr
-    s.panicked = false ∧ RingInv s ∧ ∀ c, Dead s c → (s.cursors c).closed = 1 ∧ (s.cursors c).closeCalls = 1
+/-- Every cursor whose life has ended had its partitions released exactly once, and a cursor that is still held by
+    a request or cached has not been closed (never closed while in use, never pinned after its end). -/
+theorem closed_exactly_once_at_end {s : St} (h : Reachable s) (c : Nat) :
+    (Dead s c → (s.cursors c).closed = 1) ∧
+    ((s.cursors c).acquired = 1 → ((s.cursors c).held = true ∨ ∃ e ∈ s.ring, (s.holders e).cur = some c) →
+      (s.cursors c).closed = 0) := by
+  have j := (reachable_J h).h c
+  constructor
+  · rintro ⟨ha, hd⟩; exact (j.2.2.1 ha).2 hd
+  · intro ha hlive
+    have h1 : ¬ (s.cursors c).closed = 1 := by
+      intro k
+      have := (j.2.2.1 ha).1 k
+      rcases hlive with hh | ⟨e, he, hc⟩
+      · rw [this.1] at hh; cases hh
+      · exact this.2 e he hc
+    have := j.2.2.2; omega
+
+/-- The busy ring and the map hold the same holders; the free ring is disjoint from it. -/
+theorem ring_inv {s : St} (h : Reachable s) :
+    s.ring.Nodup ∧ s.free.Nodup ∧ (∀ e ∈ s.ring, e ∉ s.free) ∧
+    (∀ e ∈ s.ring, ∃ c, (s.holders e).cur = some c ∧ s.curs.get (s.cursors c).id = some e) ∧
+    (∀ id e, s.curs.get id = some e → e ∈ s.ring ∧ ∃ c, (s.holders e).cur = some c ∧ (s.cursors c).id = id) := by
+  have j := reachable_J h
+  refine ⟨j.a, j.b1, j.b2, ?_, j.f⟩
+  intro e he; obtain ⟨c, k1, k2, _⟩ := j.e e he; exact ⟨c, k1, k2⟩
+
+/-- In a reachable state, releasing a held cursor never panics. -/
+theorem release_never_panics {s : St} (h : Reachable s) (c cp : Nat) (hheld : (s.cursors c).held = true) :
+    (release Logrange.Generated.C15.releaseLooksUpById s c cp).2 ≠ .panic := by
+  rw [code_shape.2]
+  exact (J_release c cp (reachable_J h) hheld).2
+
+/-- non-vacuity: the F16 schedule (same uncached id twice in flight) followed by the F28 pattern (id re-used while
+    held) is a well-formed trace; it ends with every dead cursor closed once -/
+def mixedTrace : List Label :=
+  [.lookup 9 0 0 false, .lookup 9 0 0 false, .create 9 0 0 .ok 1 0, .create 9 0 0 .ok 2 0, .insert 1, .insert 2,
+   .age 301, .sweepT, .lookup 9 0 0 false, .create 9 0 0 .ok 3 0, .insert 3, .release 1 2, .release 3 2,
+   .age 61, .sweepT]
+example : WF (init 3 60 300) mixedTrace := by
+  simp only [mixedTrace, WF, wfLabel]; decide
+example : let s := run true false (init 3 60 300) mixedTrace
+    (s.cursors 1).closed = 1 ∧ (s.cursors 2).closed = 1 ∧ (s.cursors 3).closed = 1 ∧ s.ring = [] ∧ s.panicked = false := by
+  decide
+
+/-! ## not proved -/
+
+/-- NOT proved (tested by the harness only): the sweeps never take the nil-dereference branches of the model
+    (`panicked` stays false in reachable states) and `close()` is called exactly once per dead cursor
+    (`closed_exactly_once_at_end` counts released partitions; `close()` is idempotent). -/
+def C15_unproved_rest : Prop :=
+  ∀ s, Reachable s → s.panicked = false ∧ ∀ c, Dead s c → (s.cursors c).closeCalls = 1
 
 end Logrange.Props.C15
